@@ -320,15 +320,36 @@ def rule_quant_not_stripped(db: ProgramDB) -> List[Instance]:
                     if isinstance(a, ast.Assign) and isinstance(a.value, ast.Name) and a.value.id == x and a.lineno < strip_line:
                         aliases |= {tg.id for tg in a.targets if isinstance(tg, ast.Name)}
             flows = False
+            from ..boolexpr import guards_of as _guards_of
+            strip_guards = [unparse(g) + str(pol) for g, pol in (_guards_of(strips[0], arm.body) or [])]
+            conditional = None
             for s in arm.body:
                 for c in ast.walk(s):
+                    hit = False
                     if isinstance(c, ast.Call) and c is not t:
                         for a in list(c.args) + [k.value for k in c.keywords]:
                             if isinstance(a, ast.Name) and ((a.id == x and c.lineno < strip_line) or (a.id in aliases - {x})):
-                                flows = True
+                                hit = True
                     if isinstance(c, (ast.Return, ast.Yield)) and c.value is not None and any(
                             isinstance(a, ast.Name) and a.id in aliases - {x} for a in ast.walk(c.value)):
-                        flows = True
+                        hit = True
+                    if hit:
+                        # handed on whenever it was replaced: under no condition the replacement is not under
+                        st_ = c
+                        while not isinstance(st_, ast.stmt):
+                            st_ = db.parent(st_)
+                        extra = [unparse(g) + str(pol) for g, pol in (_guards_of(st_, arm.body) or []) if unparse(g) + str(pol) not in strip_guards]
+                        if extra:
+                            conditional = (st_, extra)
+                        else:
+                            flows = True
+            if not flows and conditional is not None:
+                n_arms_extra = True
+                out.append(inst("QUANT-NOT-STRIPPED", VIOLATION, fn, f"{fn.short}[{x}: quantifier replaced by its variable]",
+                                f"`{unparse(strips[0])}` always goes on with the selected variable, but the sub-query itself is handed on only under `{conditional[1][0][:-4] if conditional[1][0].endswith('True') else conditional[1][0]}` "
+                                f"(`{unparse(conditional[0])[:60]}`): when that does not hold - a sub-query that gets its condition later through `with sub:`, a selected "
+                                f"sub-query some other condition mentions - nothing restricts the variable to the sub-query's solutions", line=conditional[0].lineno))
+                continue
             out.append(inst("QUANT-NOT-STRIPPED", HOLDS if flows else VIOLATION, fn, f"{fn.short}[{x}: quantifier replaced by its variable]",
                             "the quantifier is handed on next to its selected variable" if flows else
                             f"`{unparse(strips[0])}` goes on with the selected variable of a quantified sub-query and drops the sub-query: its conditions no longer "
